@@ -104,7 +104,12 @@ func (g *GlobalTransactionManager) Commit(ctx context.Context, gtr *GlobalTransa
 		return lastErr
 	}
 
-	resp := res.(message.GlobalCommitResponse)
+	resp, ok := res.(message.GlobalCommitResponse)
+	if !ok {
+		// (the deferred second phase of WithGlobalTx runs after its recover: a panic here would reach the application)
+		log.Errorf("global commit answered with a message of another type, xid %s, res %v", gtr.Xid, res)
+		return fmt.Errorf("global commit of %s answered with a message of another type: %T", gtr.Xid, res)
+	}
 	gtr.TxStatus = resp.GlobalStatus
 	if refusal := commitRefusal(resp); refusal != nil {
 		log.Warnf("global commit not acknowledged, xid %s, error %v", gtr.Xid, refusal)
@@ -172,8 +177,13 @@ func (g *GlobalTransactionManager) Rollback(ctx context.Context, gtr *GlobalTran
 		return lastErr
 	}
 
+	resp, ok := res.(message.GlobalRollbackResponse)
+	if !ok {
+		log.Errorf("global rollback answered with a message of another type, xid %s, res %v", gtr.Xid, res)
+		return fmt.Errorf("global rollback of %s answered with a message of another type: %T", gtr.Xid, res)
+	}
 	log.Infof("GlobalRollbackRequest rollback success, xid %s,", gtr.Xid)
-	gtr.TxStatus = res.(message.GlobalRollbackResponse).GlobalStatus
+	gtr.TxStatus = resp.GlobalStatus
 
 	return nil
 }
